@@ -57,6 +57,76 @@ func init() {
 		}
 		return strings.Join(out, " ")
 	}
+	// shapec shape axis others(;-separated) : Shape.Concat vs Dense.Concat on row-major tensors
+	execs["shapec"] = func(a []string) string {
+		sh := ints(a[0])
+		var oss []tensor.Shape
+		var ots []*tensor.Dense
+		mk := func(s []int) *tensor.Dense {
+			return tensor.New(tensor.WithShape(s...), tensor.WithBacking(make([]float64, prod(s))))
+		}
+		if a[2] != "-" {
+			for _, o := range strings.Split(a[2], ";") {
+				oss = append(oss, tensor.Shape(ints(o)))
+				ots = append(ots, mk(ints(o)))
+			}
+		}
+		calc := func() (s string) {
+			defer func() {
+				if e := recover(); e != nil {
+					s = "panic"
+				}
+			}()
+			r, err := tensor.Shape(sh).Concat(atoi(a[1]), oss...)
+			if err != nil {
+				return "err"
+			}
+			return "ok:" + fints(r)
+		}()
+		exec := func() (s string) {
+			defer func() {
+				if e := recover(); e != nil {
+					s = "panic"
+				}
+			}()
+			r, err := mk(sh).Concat(atoi(a[1]), ots...)
+			if err != nil {
+				return "err"
+			}
+			return "ok:" + fints(r.Shape())
+		}()
+		return calcExecObs(calc, exec)
+	}
+	// shaper shape axis reps : Shape.Repeat vs tensor.Repeat
+	execs["shaper"] = func(a []string) string {
+		sh := ints(a[0])
+		calc := func() (s string) {
+			defer func() {
+				if e := recover(); e != nil {
+					s = "panic"
+				}
+			}()
+			r, _, _, err := tensor.Shape(sh).Repeat(atoi(a[1]), ints(a[2])...)
+			if err != nil {
+				return "err"
+			}
+			return "ok:" + fints(r)
+		}()
+		exec := func() (s string) {
+			defer func() {
+				if e := recover(); e != nil {
+					s = "panic"
+				}
+			}()
+			t := tensor.New(tensor.WithShape(sh...), tensor.WithBacking(make([]float64, prod(sh))))
+			r, err := tensor.Repeat(t, atoi(a[1]), ints(a[2])...)
+			if err != nil {
+				return "err"
+			}
+			return "ok:" + fints(r.Shape())
+		}()
+		return calcExecObs(calc, exec)
+	}
 	gens["C13"] = genC13
 }
 
@@ -109,6 +179,28 @@ func factorisations(n int, maxRank int) [][]int {
 
 func genC13(tier string, r *rng, emit func(string)) {
 	thorough := tier == "thorough"
+	// (0) the Concat / Repeat shape calculators against the executed operations: every axis in
+	//     [-1, rank+1], fitting and misfitting partners, uniform / per-element / wrong-length counts
+	for _, sh := range [][]int{{3}, {2, 3}, {3, 1}, {1, 3}, {2, 3, 2}, {2, 1, 2, 3}} {
+		for axis := -1; axis <= len(sh)+1; axis++ {
+			emit(fmt.Sprintf("shapec %s %d -", fints(sh), axis))
+			same := fints(sh)
+			emit(fmt.Sprintf("shapec %s %d %s", fints(sh), axis, same))
+			emit(fmt.Sprintf("shapec %s %d %s;%s", fints(sh), axis, same, same))
+			if axis >= 0 && axis < len(sh) {
+				o := append([]int{}, sh...)
+				o[axis] += 2
+				emit(fmt.Sprintf("shapec %s %d %s", fints(sh), axis, fints(o)))
+				p := append([]int{}, sh...)
+				p[(axis+1)%len(sh)] += 1
+				emit(fmt.Sprintf("shapec %s %d %s", fints(sh), axis, fints(p))) // misfit off the axis (or on it for rank 1)
+			}
+			emit(fmt.Sprintf("shapec %s %d %s", fints(sh), axis, fints(append(append([]int{}, sh...), 2)))) // rank misfit
+			for _, reps := range []string{"2", "0", "1,2", "1,0,2", "2,1,1,2"} {
+				emit(fmt.Sprintf("shaper %s %d %s", fints(sh), axis, reps))
+			}
+		}
+	}
 	// (1) Shape.S vs AP.S over the complete per-axis argument sets (rank 1-2 full, rank 3-4 random)
 	maxD := 4
 	if thorough {
@@ -230,4 +322,16 @@ func genC13(tier string, r *rng, emit func(string)) {
 		}
 		emit(fmt.Sprintf("proginv f64 %s", prog))
 	}
+}
+
+// calc=<ok:shape|fail> exec=<ok:shape|fail> rawcalc=<..> rawexec=<..> : the property speaks about
+// "fails exactly when the operation fails"; the raw tokens keep err and panic apart for the model
+func calcExecObs(calc, exec string) string {
+	n := func(s string) string {
+		if strings.HasPrefix(s, "ok:") {
+			return s
+		}
+		return "fail"
+	}
+	return fmt.Sprintf("calc=%s exec=%s rawcalc=%s rawexec=%s", n(calc), n(exec), calc, exec)
 }
